@@ -68,6 +68,12 @@ func itemShapesBase(c *Counter, mk func(n string, it ap.Item) Shaped) []Shaped {
 		mk("list1:iri", ap.ItemCollection{c.ID("i")}),
 		mk("list1:obj", ap.ItemCollection{&ap.Object{ID: c.ID("o"), Type: ap.NoteType}}),
 		mk("list2", ap.ItemCollection{c.ID("i"), &ap.Object{ID: c.ID("o"), Type: ap.NoteType}}),
+		// two different ids, the second being the first with a query (and the reverse order, with one more key): members a decoder
+		// that tells its members apart by their ids must both keep
+		mk("list2:iri-then-query", func() ap.ItemCollection {
+			base := c.ID("i")
+			return ap.ItemCollection{base, base + "?page=2", &ap.Object{ID: base + "?page=2&sort=asc", Type: ap.NoteType}, base + "?page=3"}
+		}()),
 		mk("list3:link", ap.ItemCollection{c.ID("i"), &ap.Link{ID: c.ID("l"), Type: ap.LinkType, Href: c.ID("h")}, &ap.Actor{ID: c.ID("p"), Type: ap.GroupType}}),
 		mk("list-one-of-each-type", oneOfEach(c)),
 	}
